@@ -403,6 +403,10 @@ func (c *Ctx) build(t *Term) interface{} {
 		return p.Interface()
 	case "nilptr":
 		return (*int)(nil)
+	case "rvalue":
+		return reflect.ValueOf(c.Value(t.Xs[0]))
+	case "invalidrv":
+		return reflect.Value{}
 	}
 	panic("unknown term kind " + t.K)
 }
